@@ -112,6 +112,12 @@ static LOGGER: FormattingLogger = FormattingLogger;
 fn main() {
     // With logging on (the debug pass) everything runs on a plain spawned thread without a name, as a worker of an
     // application would; with FDX_NOLOG (the release pass) on the main thread.
+    if std::env::var("FDX_SMALL_STACK").is_ok() {
+        // child of a CHILD case: an ordinary worker thread with the default 2 MiB stack
+        let h = std::thread::Builder::new().stack_size(2 << 20).spawn(real_main).expect("spawn");
+        let code = h.join().unwrap_or(3);
+        std::process::exit(code);
+    }
     if std::env::var("FDX_NOLOG").is_err() && std::env::var("FDX_MAIN_THREAD").is_err() {
         let h = std::thread::Builder::new().stack_size(1 << 30).spawn(real_main).expect("spawn");
         let code = h.join().unwrap_or(3);
